@@ -18,6 +18,7 @@ import (
 	"dsim/benc"
 	"dsim/core"
 	"dsim/simrt"
+	"golang.org/x/time/rate"
 )
 
 // C14 — every query and traversal ends and cleans up after itself.
@@ -27,22 +28,22 @@ func init() {
 }
 
 type c14q struct {
-	idx     int
-	dest    *net.UDPAddr
-	marker  [20]byte
-	tries   int
-	cancel  context.CancelFunc
-	cancelAt time.Duration // <0: never
-	cancelled bool
-	call    *core.Call
-	writesOK int
-	writesAll int
-	failOn  int // index of the send that fails (-1 none)
-	shortOn int
-	lastOK  time.Time
-	t       string
-	reply   int // 0 never, 1 after k-th send, 2 after time-out
-	replyAfter int
+	idx          int
+	dest         *net.UDPAddr
+	marker       [20]byte
+	tries        int
+	cancel       context.CancelFunc
+	cancelAt     time.Duration // <0: never
+	cancelled    bool
+	call         *core.Call
+	writesOK     int
+	writesAll    int
+	failOn       int // index of the send that fails (-1 none)
+	shortOn      int
+	lastOK       time.Time
+	t            string
+	reply        int // 0 never, 1 after k-th send, 2 after time-out
+	replyAfter   int
 	closedBefore bool
 }
 
@@ -53,10 +54,15 @@ func c14(r *Run) {
 	startMode := ch.Pick([]int{5, 2, 2, 2}, "starting") // ok, empty, error, dead address
 	withMaint := ch.Chance(1, 8, "cfg.maintainer")
 	closeMid := ch.Chance(1, 4, "close.mid")
+	tight := ch.Chance(1, 5, "cfg.tightlimiter") // queries wait for send budget (and may meet Close or a cancel while waiting)
 	r.Swarm["starting"], r.Swarm["maintainer"], r.Swarm["closeMid"], r.Swarm["resend"] = startMode, withMaint, closeMid, delay.String()
 	pop := NewPop(r)
 	var starting []dht.Addr
 	cfg := &dht.ServerConfig{NoSecurity: true, QueryResendDelay: func() time.Duration { return delay }}
+	if tight {
+		cfg.SendLimiter = rate.NewLimiter(rate.Limit(2+ch.Intn(10, "limiter.rate")), 1+ch.Intn(3, "limiter.burst"))
+		r.FaultHit("tight-limiter")
+	}
 	cfg.StartingNodes = func() ([]dht.Addr, error) {
 		switch startMode {
 		case 1:
@@ -349,8 +355,8 @@ func c14(r *Run) {
 			}
 		case errors.Is(res.Err, dht.TransactionTimeout):
 			timeouts++
-			if closed {
-				continue
+			if closed || tight {
+				continue // with a tight limiter sends are delayed by the budget: no exact instants
 			}
 			if q.writesOK > 0 && q.failOn < 0 && q.shortOn < 0 {
 				want := q.lastOK.Add(delay)
@@ -366,7 +372,7 @@ func c14(r *Run) {
 		default:
 			senderrs++
 			es := res.Err.Error()
-			if !(q.failOn >= 0 || q.shortOn >= 0 || closed || strings.Contains(es, "closed")) {
+			if !(q.failOn >= 0 || q.shortOn >= 0 || closed || strings.Contains(es, "closed") || (tight && strings.Contains(es, "rate limit"))) {
 				r.Violate("unexpected-query-error", "query %d (no write fault, no cancel, no close) returned %v", q.idx, res.Err)
 				return
 			}
